@@ -733,5 +733,16 @@ def rule_tte(F, R):
                 while g_['k'] in ('Borrow', 'Deref', 'Use'): g_ = g_.get('arg') or g_.get('source')
                 if g_['k'] == 'Adt' and canon(g_['adt']) == TT_: listed.add(g_['variant'])
         ok = listed == {'True', 'False', 'Any'}
+        # ... and the search runs over the whole list: `variants().iter().find(..)` with nothing in between that drops a variant
+        fs_ = [k for k in lib.ithir if k.endswith('FromStr>::from_str') and 'TruthTableEntry' in k]
+        if fs_ and ok:
+            for x in walk(lib.ithir[fs_[0]]['body']):
+                if x['k'] == 'Call' and callee_decl(x) in ('std::iter::Iterator::find', 'std::iter::Iterator::position', 'std::iter::Iterator::find_map') and x['args']:
+                    rc = x['args'][0]; chain = []
+                    while True:
+                        while rc['k'] in ('Borrow', 'Deref', 'Use'): rc = rc.get('arg') or rc.get('source')
+                        if rc['k'] == 'Call' and rc['args']: chain.append((callee_name(rc) or '').split('::')[-1]); rc = rc['args'][0]
+                        else: break
+                    if any(c_ in ('skip', 'take', 'filter', 'step_by', 'skip_while', 'take_while', 'nth') for c_ in chain): ok = False; listed = set(listed) | {'(searched through %s)' % '.'.join(reversed(chain))}
         R.count('T:filter-variants-listed'); R.obligation(ok, 'T tte variants')
         if not ok: R.violation(TT_ + '::variants / T / list of variants', 'T', 'the list searched by from_str holds %s; every one of True, False, Any must be in it (its spellings are refused otherwise)' % sorted(listed))
